@@ -293,6 +293,11 @@ def _mk_seq(kind, moltype, text, offset):
         return cogent3.make_seq(text, name="s", moltype=moltype, annotation_offset=offset)
     from cogent3.core import new_moltype
 
+    if kind == "newcoll":
+        # a sequence handed out by a new-style collection: its view is a SeqDataView
+        from cogent3.core import new_alignment
+
+        return new_alignment.make_unaligned_seqs({"s": text, "other": "ACGT" if moltype != "rna" else "ACGU"}, moltype=moltype).get_seq("s")
     return new_moltype.get_moltype(moltype).make_seq(seq=text, name="s", annotation_offset=offset)
 
 
@@ -506,7 +511,8 @@ def spec_check(ctx, budget):
         cases.append((mt, text, rng.choice([0, 0, 7]), ops))
 
     for mt, text, offset, ops in cases:
-        for kind in ("old", "new"):
+        kinds = ("old", "new", "newcoll") if (offset == 0 and text and mt in ("dna", "rna", "protein")) else ("old", "new")
+        for kind in kinds:
             out["evaluations"] += 1
             inp = dict(impl=kind, moltype=mt, parent=text, offset=offset, chain=ops)
             try:
